@@ -1,10 +1,13 @@
 import Driver.Common
 import Driver.TopicD
+import Driver.RouterD
 
 def main (args : List String) : IO UInt32 := do
   match args with
   | ["topic"] => Driver.runHandler (Driver.TopicD.handler false)
   | ["topic", "--selftest-wrong"] => Driver.runHandler (Driver.TopicD.handler true)
+  | ["router", prop] => Driver.runHandler (Driver.RouterD.handler prop false)
+  | ["router", prop, "--selftest-wrong"] => Driver.runHandler (Driver.RouterD.handler prop true)
   | _ =>
     IO.eprintln "usage: mdriver <topic|...> [--selftest-wrong] < lines"
     return 2
